@@ -4,7 +4,8 @@ import random
 from .. import bootstrap  # noqa: F401
 from .. import inject
 
-from usim import Channel, StreamClosed, time
+import usim
+from usim import Channel, StreamClosed, time, instant
 
 PROPERTY = 'C11'
 LEVEL = 'fault_enumeration'
@@ -370,7 +371,26 @@ def build_for(case):
         participants = [(spec['name'], producer(spec)) for spec in scenario['producers']]
         participants += [(spec['name'], consumer(spec)) for spec in scenario['consumers']]
         order = random.Random(case['index']).sample(participants, len(participants))
-        return order, (), checker
+        background = []
+        if case['index'] % 3 == 0:
+            # another, independent channel is busy at the same time: channels share nothing
+            other = Channel()
+
+            async def elsewhere():
+                async def listener():
+                    async for _ in other:
+                        await (time + 0.5)
+
+                async with usim.Scope() as scope:
+                    scope.do(listener(), volatile=True)
+                    scope.do(listener(), volatile=True)
+                    await instant
+                    for number in range(8):
+                        await other.put('other-%d' % number)
+                        await (time + 0.5)
+                    await other.close()
+            background.append(elsewhere())
+        return order, background, checker
     return build
 
 
